@@ -28,7 +28,8 @@ LEVEL = "exploration"
 RULE = ("enumeration of bring-up configurations: device mode {bootloader, signer, ui-heartbeat, "
         "GET_MODE fails, foreign byte} x onboarded {yes,no,error} x UI version x signer version "
         "(3x3x3 grid around 5.4.1 each) x retries {0,1,2,3,255} x echo x unlock outcome x PIN "
-        "needs change x mode after exit x platform {Ledger, SGX, TCP}; thorough = complete product, "
+        "change outcome {none needed, accepted, refused, status error, link error, time-out, ack "
+        "lost, commit fails} x mode after exit x platform {Ledger, SGX, TCP}; thorough = complete product, "
         "quick = all non-version dimensions x seed-chosen version pairs (boundaries always "
         "included) plus random version triples; non-trivial = bootloader-mode or version-boundary "
         "configuration; distinct by configuration")
